@@ -271,17 +271,18 @@ structure XSent where
   terms : List XTerm
   nts : List XNt
 
-/-- build the subtree with id `i`; every id has exactly one incoming edge (checked before) -/
+/-- build the subtree with id `i`; every id has exactly one incoming edge (checked before).  `edge` is the node's edge field: the `label`
+    attribute of the `<edge>` pointing to it, `none` when that attribute is absent (`edge.get('label')` is Python `None`); `--` for the root -/
 def tigerBuild (s : XSent) : Nat → Str → Option Str → Option Tree
   | 0, _, _ => none
   | fuel + 1, i, edge =>
     match s.terms.zipIdx.find? (fun (t, _) => t.id == i) with
-    | some (t, k) => some (.leaf (k + 1) { label := t.pos.getD [], word := some (t.word.getD "None".toList), morph := t.morph, lemma := t.lemma, edge := some (edge.getD DEFAULT_EDGE) })
+    | some (t, k) => some (.leaf (k + 1) { label := t.pos.getD [], word := some (t.word.getD "None".toList), morph := t.morph, lemma := t.lemma, edge := edge })
     | none =>
       match s.nts.find? (·.id == i) with
       | some nt =>
-        (nt.edges.mapM fun (e : Option Str × Str) => tigerBuild s fuel e.2 (some (e.1.getD "None".toList))).map fun ks =>
-          .node { label := nt.cat.getD [], morph := some DEFAULT_MORPH, edge := some (edge.getD DEFAULT_EDGE), lemma := some DEFAULT_LEMMA } ks
+        (nt.edges.mapM fun (e : Option Str × Str) => tigerBuild s fuel e.2 e.1).map fun ks =>
+          .node { label := nt.cat.getD [], morph := some DEFAULT_MORPH, edge := edge, lemma := some DEFAULT_LEMMA } ks
       | none => none
 
 mutual
@@ -304,7 +305,7 @@ def tigerSentence (o : InOpts) (s : XSent) : Except Err Tree :=
     match roots with
     | [] => .error .valueError
     | [r] =>
-      match tigerBuild s (ids.length + 2) r none with
+      match tigerBuild s (ids.length + 2) r (some DEFAULT_EDGE) with
       | none => .error .other
       | some root =>
         let top := if root.fields.label != DEFAULT_ROOT
